@@ -16,6 +16,7 @@ pub mod Type {
     pub struct bool;
     pub struct array;
     pub struct object;
+    pub struct null;
     pub struct any;
 
     #[allow(private_bounds)]
@@ -29,6 +30,7 @@ pub mod Type {
     impl Sealed for bool {const NAME: &'static str = "boolean";}
     impl Sealed for array {const NAME: &'static str = "array";}
     impl Sealed for object {const NAME: &'static str = "object";}
+    impl Sealed for null {const NAME: &'static str = "null";}
     impl Sealed for any {const NAME: &'static str = "";}
 }
 
@@ -290,6 +292,14 @@ const _: (/* constructors */) = {
             Self {
                 datatype: PhantomData,
                 raw: RawSchema { datatype: Type::object::NAME, ..ANY }
+            }
+        }
+    }
+    impl Schema<Type::null> {
+        pub fn null() -> Self {
+            Self {
+                datatype: PhantomData,
+                raw: RawSchema { datatype: Type::null::NAME, ..ANY }
             }
         }
     }
